@@ -238,6 +238,7 @@ class C07(vlib.Spec):
         "correspondence check: Go driver hooks/banyand/internal/verifdrv/seg (real OpenTSDB on a scratch dir, mock clock, the "
         "registered retention action invoked synchronously, DeleteOldestSegment, SelectSegments) vs lean_exe drv_c07, line-exact",
         "export hooks hooks/banyand/internal/storage/zz_verif_seg.go, hooks/pkg/timestamp/zz_verif_seg.go",
+        "export hooks hooks/banyand/{stream,measure,trace}/zz_verif_seg*.go (real supplier.OpenDB on a temp dir; oracle only)",
         "Go package time / tz database (zone parameter), pbgen-regenerated protobuf Go code (commonv1.ResourceOpts)",
     ]
     assumptions = [
